@@ -7,7 +7,7 @@ import sys
 
 from hypothesis import strategies as st
 
-from .. import gen, sim, meta, worker
+from .. import units, gen, sim, meta, worker
 from ..runner import drive
 
 ID = 'C07'
@@ -21,7 +21,7 @@ RULE = ('enumeration: every floatParameter/intParameter in the live ParameterDic
         'through GeophiresXClient/HipRaXClient (must raise naming the parameter, no result file); bound/inside probes '
         'through Model()+read_parameters() (value stored must equal the supplied quantity). Candidates equal to the '
         "parameter's default/current value are the 'not provided' sentinel and are skipped (counted). "
-        'Every probe of a parameter that has a documented alternative spelling (deprecated name still accepted) is repeated '
+        'One outside probe per float parameter is also written with a unit (the declared unit itself, or a fraction in per cent): it must be refused too. Every probe of a parameter that has a documented alternative spelling (deprecated name still accepted) is repeated '
         'under that spelling; random outside probes carry 0-2 in-range companion inputs (accepted on their own). '
         'distinct non-trivial = distinct (family class, parameter, probe kind[, value, companions]).')
 ASSUMPTIONS = [
@@ -180,10 +180,14 @@ ALIASES = {'Nonvertical Length per Multilateral Section': ['Total Nonvertical Le
 
 def _check_probe(rec, family, base, rows_by_name, r, kind, val, expect, written_as=None, context=()):
     name = r['name']
+    spelled = gen.fmt(val)
+    if '@unit' in kind:
+        # the same outside value written with a unit: '<value> <declared unit>' (identity), or a fraction written in per cent
+        spelled = f'{gen.fmt(val * 100.0)} %' if r['pu'] == '' else f'{gen.fmt(val)} {r["pu"]}'
     if written_as:
-        params = gen.drop_param(base, name) + [[written_as, gen.fmt(val)]]
+        params = gen.drop_param(base, name) + [[written_as, spelled]]
     else:
-        params = gen.set_param(base, name, gen.fmt(val))
+        params = gen.set_param(base, name, spelled)
     for cn, cv in context:
         params = gen.set_param(params, cn, cv)
     case = {'family': family, 'params': params, 'probe': [name, kind, gen.fmt(val), expect], 'cls': r['cls']}
@@ -213,7 +217,9 @@ def _check_probe(rec, family, base, rows_by_name, r, kind, val, expect, written_
             rec.violation('not_rejected', case, {'stored': stored, 'declared': [r['min'], r['max'], r['allowable'][:20]]},
                           cls=r['cls'], name=name, probe=kind.replace('_ulp', ''))
         else:
-            if not names:
+            if not names and '@unit' in kind:
+                rec.count('unit_spelled_value_refused_without_naming_the_parameter')  # refused through the unit machinery: C06's subject
+            elif not names:
                 rec.violation('error_does_not_name_parameter', case, {'message': msg}, cls=r['cls'], name=name)
             if exists:
                 rec.violation('result_produced_despite_rejection', case, {'message': msg}, cls=r['cls'], name=name)
@@ -276,6 +282,9 @@ def run_shard(spec, rec):
         # companion totals: inputs named 'Total ...' supersede itemised inputs of their module in the calculation; stating one must not
         # switch off the range check of anything else.  One outside probe per parameter is repeated with every total of the family
         # stated in range (the totals alone must be an accepted input).
+        worker.init_worker()
+        from geophires_x.Units import Units as _U
+        percent_ut = getattr(_U.PERCENT, 'value', _U.PERCENT)
         totals, seen_t = [], set()
         for c in rows:
             if c['kind'] == 'floatParameter' and c['name'].startswith('Total ') and c['name'] not in seen_t and \
@@ -294,6 +303,9 @@ def run_shard(spec, rec):
             if totals and rejects and r['name'] not in seen_t:
                 kind, val, expect = rejects[-1]
                 _check_probe(rec, spec['family'], base, byname, r, kind + '+totals', val, expect, context=tuple(totals))
+            if rejects and r['kind'] == 'floatParameter' and (r['pu'] in units.TABLE or (r['pu'] in ('', '%') and r['ut'] == percent_ut)):
+                kind, val, expect = rejects[-1]
+                _check_probe(rec, spec['family'], base, byname, r, kind + '@unit', val, expect)
             for kind, val, expect in _probe_values(r):
                 _check_probe(rec, spec['family'], base, byname, r, kind, val, expect)
                 for alias in ALIASES.get(r['name'], []):
@@ -545,7 +557,8 @@ def evaluate(case, rec):
     drop = {name, case.get('written_as')} | {c[0] for c in ctx}
     fam_base = families().get(case['family'], [])
     base = [p for p in case['params'] if p[0] not in drop] + [p for p in fam_base if p[0] in drop - {case.get('written_as')}]
-    kind = kind.replace('@alias', '').replace('+totals', '')
+    unit_sp = '@unit' in kind
+    kind = kind.replace('@alias', '').replace('+totals', '').replace('@unit', '') + ('@unit' if unit_sp else '')
     rows = _family_rows(base)
     byname = _name_ranges(rows)
     rs = [x for x in rows if x['name'] == name and x['cls'] == case.get('cls', x['cls'])] or \
